@@ -33,6 +33,31 @@ def _acc_store(f, attr):
     return None, None
 
 
+def posterior_locals(P, f):
+    """Locals of the E-step that hold posterior moments, recognised by how they are computed:
+    level 0  the posterior covariance: value of inv / pinv / solve(...)
+    level 1  the posterior mean: a product (dot / matmul / @ / einsum / solve) that has a level-0 value as an operand.
+    They are data-dependent in sign; the sign rules treat them as opaque positive-labelled atoms `post:cov` / `post:mean`."""
+    lab = {}
+    sts = [(st, t, v) for st, t, v, k in stores(f) if isinstance(t, ast.Name) and v is not None and k == "assign"]
+    for st, t, v in sts:
+        if isinstance(v, ast.Call) and src(v.func).split(".")[-1] in ("inv", "pinv"):
+            lab[t.id] = "post:cov"
+        if isinstance(v, ast.Call) and src(v.func).split(".")[-1] == "solve":
+            lab[t.id] = "post:mean"
+    for st, t, v in sts:
+        if t.id in lab:
+            continue
+        ops = []
+        if isinstance(v, ast.BinOp) and isinstance(v.op, ast.MatMult):
+            ops = [v.left, v.right]
+        elif isinstance(v, ast.Call) and src(v.func).split(".")[-1] in ("dot", "matmul", "einsum", "tensordot"):
+            ops = list(v.args)
+        if any(isinstance(o, ast.Name) and lab.get(o.id) == "post:cov" for o in ops):
+            lab[t.id] = "post:mean"
+    return lab
+
+
 def check_fnorm(P, R):
     """Centred statistics, identified by where they flow (not by the names of locals):
     - the value returned by compute_tt_sigma_inv_fnorm is T'S^-1 (F - N m);
@@ -46,7 +71,7 @@ def check_fnorm(P, R):
     pol.check_row(R, "POL.fnorm", f.key, t, dict(atoms=[f.value_params[0], "ubm.means", "means"], sign="-", with_=["n"], why="N times the UBM mean is subtracted"))
     g = P.func(IV + "e_step")
     R.analysed(g)
-    gp = pol.Pol(P, g)
+    gp = pol.Pol(P, g, opaque=posterior_locals(P, g))
     st, v = _acc_store(g, "fnorm_sigma_wij")
     if v is None:
         R.violation("POL.fnorm", g.key, "stats.fnorm_sigma_wij accumulation", "the Fnorm E[w]' accumulator is no longer updated")
@@ -81,24 +106,24 @@ def check_precision(P, R):
         R.check(bool(dat) and all(s_ == 1 for s_, a in dat) and all(any(x.endswith(".n") for x in a) for s_, a in dat), "PREC.data", f.key, "+ sum_c N_c T_c' S_c^-1 T_c", pol.fmt_terms(dat)[:80], f"the data term of the precision is not a positive count-weighted term: {pol.fmt_terms(dat)}", r.lineno)
     # E[w w'] accumulated into nij_sigma_wij2: N * (posterior covariance + mean outer product)
     g = P.func(IV + "e_step")
-    gp = pol.Pol(P, g)
+    gp = pol.Pol(P, g, opaque=posterior_locals(P, g))
     st, v = _acc_store(g, "nij_sigma_wij2")
     if v is None:
         R.violation("PREC.second-moment", g.key, "stats.nij_sigma_wij2 accumulation", "the N E[ww'] accumulator is no longer updated")
         return
     t = [x for x in dict.fromkeys(gp.terms(v, gp.du.stmt_of(st))) if not any("nij_sigma_wij2" in a for a in x[1])]
-    cov = [x for x in t if any("inv" in a for a in x[1])]
+    cov = [x for x in t if any("inv" in a or a == "post:cov" for a in x[1])]
     R.check(bool(t) and all(s_ == 1 for s_, a in t) and len(t) >= 2 and bool(cov), "PREC.second-moment", g.key, f"N E[w w'] = {pol.fmt_terms(t)[:90]}", "N * (posterior covariance + outer product of the mean), all positive", f"the accumulated second moment is not N * (inverse precision + mean outer product): {pol.fmt_terms(t)[:120]}", st.lineno)
     R.check(all(any(a.endswith(".n") for a in x[1]) for x in t), "PREC.second-moment", g.key, "weighted by the counts", "", "E[w w'] is not weighted by the counts", st.lineno)
     # the E-step sums have no divisions: counts, statistics, means and posterior moments all multiply
-    gi = pol.Pol(P, g, track_inv=True)
+    gi = pol.Pol(P, g, track_inv=True, opaque=posterior_locals(P, g))
     nn = 0
     for attr in ("nij_sigma_wij2", "fnorm_sigma_wij", "snormij", "nij"):
         st2, v2 = _acc_store(g, attr)
         if v2 is None:
             continue
         it = list(dict.fromkeys(gi.terms(v2, gi.du.stmt_of(st2))))
-        nn += pol.check_inverse(R, "PREC.placement", g.key, it, direct=["n", "sum_px", "sum_pxx", "means", "call:*", "inv*", attr], what=f"stats.{attr}: every factor multiplies", line=st2.lineno)
+        nn += pol.check_inverse(R, "PREC.placement", g.key, it, direct=["n", "sum_px", "sum_pxx", "means", "call:*", "inv*", "post:*", attr], what=f"stats.{attr}: every factor multiplies", line=st2.lineno)
     R.floor("PREC.placement atoms", nn, 8)
 
 
@@ -113,21 +138,61 @@ def _kernel_calls(P, f):
     return out
 
 
+def _inline_posterior_term(P, f, kernel):
+    """Is the value of `kernel` computed in place in f?  precision: the inverted / solved-against expression is identity + a positive
+    count-weighted term in T; linear term: what the posterior covariance is applied to has +F and -N m."""
+    p_ = pol.Pol(P, f)
+    du = p_.du
+    inv_args, lin_args = [], []
+    lab = posterior_locals(P, f)
+    for n in walk_no_nested(f.node):
+        if isinstance(n, ast.Call) and src(n.func).split(".")[-1] in ("inv", "pinv") and n.args:
+            inv_args.append((n.args[0], n))
+        if isinstance(n, ast.Call) and src(n.func).split(".")[-1] == "solve" and len(n.args) == 2:
+            inv_args.append((n.args[0], n))
+            lin_args.append((n.args[1], n))
+        ops = None
+        if isinstance(n, ast.BinOp) and isinstance(n.op, ast.MatMult):
+            ops = [n.left, n.right]
+        elif isinstance(n, ast.Call) and src(n.func).split(".")[-1] in ("dot", "matmul") and len(n.args) == 2:
+            ops = list(n.args)
+        if ops and isinstance(ops[0], ast.Name) and lab.get(ops[0].id) == "post:cov":
+            lin_args.append((ops[1], n))
+    if kernel == "compute_id_tt_sigma_inv_t":
+        for e, n in inv_args:
+            t = list(dict.fromkeys(p_.terms(e, du.stmt_of(n))))
+            ident = [x for x in t if x[0] == 1 and not x[1]]
+            dat = [x for x in t if x[1]]
+            if ident and dat and all(s_ == 1 for s_, a in dat) and all(any(x.endswith(".n") for x in a) for s_, a in dat) and any(any(x.endswith(".T") or "compute_tct" in x for x in a) for s_, a in dat):
+                return True, ""
+        return False, "no inverted expression of the form I + sum_c N_c T_c' S_c^-1 T_c"
+    for e, n in lin_args:
+        t = list(dict.fromkeys(p_.terms(e, du.stmt_of(n))))
+        plus = [x for x in t if any(a.endswith(".sum_px") for a in x[1])]
+        minus = [x for x in t if any(a.endswith("means") for a in x[1]) and not any(a.endswith(".sum_px") for a in x[1])]
+        if plus and minus and all(s_ == 1 for s_, a in plus) and all(s_ == -1 and any(x.endswith(".n") for x in a) for s_, a in minus):
+            return True, ""
+    return False, "no linear term of the form T' S^-1 (F - N m)"
+
+
 def check_sibling(P, R):
     pr = P.func(IV + "IVectorMachine.project")
     es = P.func(IV + "e_step")
     R.analysed(pr)
     kp, ke = _kernel_calls(P, pr), _kernel_calls(P, es)
     for nm in ("compute_id_tt_sigma_inv_t", "compute_tt_sigma_inv_fnorm"):
-        R.check(nm in kp and nm in ke, "SIBLING.kernels", pr.key, f"project and e_step both call {nm}", "same kernel", f"{nm} is not used by both the projection and the E-step: training and extraction disagree on the posterior")
-        for who, calls, mach in (("project", kp, pr.self_name), ("e_step", ke, es.value_params[0])):
+        for who, f_, calls, mach in (("project", pr, kp, pr.self_name), ("e_step", es, ke, es.value_params[0])):
             if nm not in calls:
+                # the kernel may be written out in place: then the same structural conditions are checked on the expression
+                ok_inline, why = _inline_posterior_term(P, f_, nm)
+                R.check(ok_inline, "SIBLING.kernels", f_.key, f"{who} computes {nm} (call or in place)", "same posterior in training and extraction", f"{who} neither calls {nm} nor computes its value in place ({why}): training and extraction disagree on the posterior")
                 continue
+            R.ok("SIBLING.kernels", f_.key, f"{who} calls {nm}", "same kernel")
             c, b = calls[nm]
             roles = {"T": f"{mach}.T", "sigma": f"{mach}.sigma", "ubm_means": f"{mach}.ubm.means"}
             for prm, want in roles.items():
                 if prm in b:
-                    R.check(src(b[prm]) == want, "SIBLING.roles", (pr if who == "project" else es).key, f"{nm}({prm}={src(b[prm])})", f"machine's own {prm}", f"{who} passes `{src(b[prm])}` as {prm} where the machine's `{want}` is required", c.lineno)
+                    R.check(src(b[prm]) == want, "SIBLING.roles", f_.key, f"{nm}({prm}={src(b[prm])})", f"machine's own {prm}", f"{who} passes `{src(b[prm])}` as {prm} where the machine's `{want}` is required", c.lineno)
             if "stats" in b:
                 sv = src(b["stats"])
                 want = pr.value_params[0] if who == "project" else None
@@ -195,8 +260,8 @@ def run(P, R, tier):
     # E-step accumulators: N E[ww'], Fnorm E[w]', Snorm, N
     e = P.func(IV + "e_step")
     edu = get_defuse(e, P)
-    ep = pol.Pol(P, e)
-    need = {"nij_sigma_wij2": ("n", "inv"), "fnorm_sigma_wij": ("sum_px", "inv"), "snormij": ("sum_pxx",), "nij": ("n",)}
+    ep = pol.Pol(P, e, opaque=posterior_locals(P, e))
+    need = {"nij_sigma_wij2": ("n", "post:"), "fnorm_sigma_wij": ("sum_px", "post:"), "snormij": ("sum_pxx",), "nij": ("n",)}
     for st, t, v, k in stores(e):
         if isinstance(t, ast.Attribute) and t.attr in need:
             terms = list(dict.fromkeys(ep.terms(v, edu.stmt_of(st))))
